@@ -36,6 +36,16 @@ func c03run(c GCase, memoExpr map[int]bool, memoNT []bool, plain bool) c03outcom
 	g := *c.G
 	g.Memo = memoNT
 	h := &gram.Hooks{NoMemo: plain, ShareLeaves: true}
+	if run.Hash(c.G.String())%3 == 0 {
+		// a third of the grammars name every Any/Choice (Name() -> parser.ReturnError): a named alternative that fails
+		// returns 'was expecting <name>' - in the plain and in the memoized build alike
+		h.NameOf = func(e *gram.Expr) string {
+			if e.Op == gram.OpAny || e.Op == gram.OpChoice {
+				return fmt.Sprintf("alt%d", e.ID)
+			}
+			return ""
+		}
+	}
 	budgetOnly := func(nt int, p parsley.Parser) parsley.Parser {
 		return parser.Func(func(ctx *parsley.Context, lrc data.IntMap, pos parsley.Pos) (parsley.Node, data.IntSet, parsley.Error) {
 			gd.Tick(ctx)
